@@ -10,7 +10,6 @@ import (
 	"errors"
 	"fmt"
 	"net/http"
-	"net/http/httptest"
 	"reflect"
 	"strings"
 	"sync"
@@ -22,6 +21,7 @@ import (
 	"github.com/opencontainers/go-digest"
 	"pgregory.net/rapid"
 
+	"verif/harness/internal/memnet"
 	"verif/harness/vt"
 )
 
@@ -184,12 +184,12 @@ func through(s Script, n int) (observed, error) {
 		}
 	}()
 	for i := 0; i < n; i++ {
-		srv := httptest.NewServer(ociserver.New(reg, nil))
-		tr := &http.Transport{}
+		srv := memnet.NewServer(ociserver.New(reg, nil))
+		tr := srv.Transport()
 		tap := &statusTap{rt: tr}
 		taps = append(taps, tap)
 		closers = append(closers, func() { tr.CloseIdleConnections(); srv.Close() })
-		c, err := ociclient.New(strings.TrimPrefix(srv.URL, "http://"), &ociclient.Options{Insecure: true, Transport: tap})
+		c, err := ociclient.New(srv.Host, &ociclient.Options{Insecure: true, Transport: tap})
 		if err != nil {
 			return observed{}, err
 		}
